@@ -48,10 +48,17 @@ func registerCrypto(e *Engine) {
 	// bytes) never recovers to one of the model keys. Signatures made by SignDigest
 	// are recognised by their r component, a fresh variable named sig_r!n.
 	unforgeable := func(fr *frame, d, r, s, v *Term) {
+		rec := recoverT(d, r, s, v)
 		if r.op == "var" && strings.HasPrefix(r.name, "sig_r!") {
+			// a genuine signature: it says nothing about any other digest
+			signed, _ := fr.p.hostState["sigdigest"].(map[string]*Term)
+			if ds, ok := signed[r.name]; ok && ds != d {
+				for _, a := range modelAddrs {
+					fr.p.assume(Or(Eq(d, ds), Not(Eq(rec, IntConst(ethAddrInt(a))))))
+				}
+			}
 			return
 		}
-		rec := recoverT(d, r, s, v)
 		for _, a := range modelAddrs {
 			fr.p.assume(Not(Eq(rec, IntConst(ethAddrInt(a)))))
 		}
@@ -79,6 +86,12 @@ func registerCrypto(e *Engine) {
 			sig := append(beCells(r, 32), beCells(s, 32)...)
 			sig = append(sig, uint64(0))
 			d := intOf(digest, 0, len(digest))
+			signed, _ := p.hostState["sigdigest"].(map[string]*Term)
+			if signed == nil {
+				signed = map[string]*Term{}
+				p.hostState["sigdigest"] = signed
+			}
+			signed[r.name] = d
 			p.assume(Eq(recoverT(d, r, s, IntConst64(0)), IntConst(ethAddrInt(modelAddrs[i]))))
 			p.assume(App("validsig", SBool, d, r, s, IntConst64(0)))
 			return sig
